@@ -239,6 +239,15 @@ def extra_families(ck, rnd, quick):
                         s0 = sp.Line(O, p1) if kinds[0] == 'L' else sp.CubicBezier(O, O + 3 + 1j, p1 - 3, p1)
                         s1 = sp.Line(p1, p2) if kinds[1] == 'L' else sp.CubicBezier(p1, p1 + 3 * d1, p2 - 3 * d1 + 1j, p2)
                         generic_check(ck, sp.Path(s0, s1), 3, 1.99, 'corner turning by %r degrees (%s)' % (turn, kinds))
+            # an S-shaped connector whose two end tangents are parallel (it is not straight) between lines it meets at corners
+            for (p0, c1, c2, p1) in ((0j, 50 + 0j, 50 + 100j, 100 + 100j), (0j, 30 + 0j, 10 + 40j, 40 + 40j), (0j, 0 + 20j, 30 - 5j, 30 + 15j)):
+                conn = sp.CubicBezier(O + sc * p0, O + sc * c1, O + sc * c2, O + sc * p1)
+                d0, d1 = conn.unit_tangent(0), conn.unit_tangent(1)
+                pre = sp.Line(conn.start - sc * 30 * d0 * cmath.exp(1j * math.radians(55)), conn.start)
+                post = sp.Line(conn.end, conn.end + sc * 30 * d1 * cmath.exp(-1j * math.radians(70)))
+                for mjs, tight in combos:
+                    generic_check(ck, sp.Path(pre, conn, post), mjs * sc, tight, 'S-shaped connector with parallel end tangents between two corners')
+                    generic_check(ck, sp.Path(pre, conn), mjs * sc, tight, 'line -> S-shaped connector')
             # zero-length handle at a kinked joint
             for (a, b, c2, e) in ((0j, 6 + 0j, 7 + 4j, 12 + 5j), (0j, 5 + 2j, 3 + 7j, -2 + 9j), (0j, 4 - 3j, 9 - 1j, 10 + 6j)):
                 a, b, c2, e = (O + sc * z for z in (a, b, c2, e))
